@@ -92,7 +92,7 @@ class GridMachine(BaseCheck):
                 'lookup_every': k.choice([1, 1, 2, 3, 0]),
                 'ninit': k.choice([0, 0, 1, 2, 3, 4])}
         kinds = ['append', 'insert', 'extend', 'iadd', 'set', 'del', 'delslice', 'pop', 'popi', 'remove',
-                 'reverse', 'clear', 'slice', 'slice', 'filter', 'bad', 'extend_self', 'edit_id', 'lookup']
+                 'reverse', 'clear', 'slice', 'slice', 'filter', 'bad', 'extend_self', 'extend_grid', 'edit_id', 'lookup']
         enabled = [x for x in sorted(set(kinds)) if k.random() < 0.75]
         if not enabled:
             enabled = ['append', 'del']
@@ -169,6 +169,10 @@ class GridMachine(BaseCheck):
                             'i': idx(), 'bad': r.randrange(len(NON_DICTS))})
             elif op == 'extend_self':
                 ops.append({'op': 'extend_self', 'g': g, 'how': r.choice(['extend', 'iadd'])}); lens[g] *= 2
+            elif op == 'extend_grid':
+                src = r.randrange(len(lens))
+                ops.append({'op': 'extend_grid', 'g': g, 'src': src, 'how': r.choice(['extend', 'iadd'])})
+                lens[g] += lens[src]
             elif op == 'edit_id':
                 fresh_id += 1
                 if cls == 'unique-str':
@@ -335,6 +339,18 @@ class GridMachine(BaseCheck):
                             g.extend(g)
                         else:
                             g += g
+                elif op == 'extend_grid':
+                    # rows of another live grid (a Grid is passed, not a list)
+                    sg, sm = pool[o.get('src', 0) % len(pool)]
+                    add = [x for x in sm if not (unique and present(model, x))]
+                    if unique and (sg is g or len(add) != len(sm)):
+                        skipped = True
+                    else:
+                        model.extend(list(sm))
+                        if o.get('how') == 'extend':
+                            g.extend(sg)
+                        else:
+                            g += sg
                 elif op == 'slice':
                     sl = slice(o.get('a'), o.get('b'), o.get('c'))
                     ng = g[sl]
